@@ -229,4 +229,72 @@ example : (orderFees 64 (10 ^ 9) ⟨500000, 700000, 370000000, 0⟩ 10 11 (10 ^ 
 example : liquidationFee 64 (10 ^ 9) 2000000 370000000 (10 ^ 12) 7
     = some ⟨2000000000, 285714286, 105714285⟩ := by decide
 
+/-! ### Audit additions: stronger statements -/
+
+/-- `orderFees_zero_price` covers only the min price; a zero MAX price is rejected as well. -/
+theorem orderFees_zero_max_price (W U : Nat) (p : FeeParams) (pmin size : Nat) (bc : BalanceChange) :
+    orderFees W U p pmin 0 size bc = .error .invalidPrices := by
+  simp [orderFees]
+
+/-- liquidation fee value never exceeds the size for a factor ≤ 100%, and a successful non-zero
+factor computation had a non-zero unit (so the `/ U` of `liquidationFee_roundsUp` is a real division). -/
+theorem liquidationFee_value_le_size {W U factor recvFactor size pmin : Nat} {l : LiqFees}
+    (h : liquidationFee W U factor recvFactor size pmin = some l) (hf : factor ≤ U) :
+    l.feeValue ≤ size ∧ (factor ≠ 0 → U ≠ 0) := by
+  by_cases hz : factor = 0
+  · simp [liquidationFee, hz] at h; subst h; exact ⟨Nat.zero_le _, fun h => absurd hz h⟩
+  · have hU : U ≠ 0 := by
+      have h' := h
+      unfold liquidationFee at h'; simp only [hz, if_false] at h'
+      split at h'
+      · cases h'
+      · rename_i fv hfv; exact ((C01.applyFactor_spec _ _ _ _ _).1 hfv).1
+    obtain ⟨_, h2, _, _⟩ := liquidationFee_roundsUp h hz
+    refine ⟨?_, fun _ => hU⟩
+    rw [h2]
+    calc size * factor / U ≤ size * U / U := Nat.div_le_div_right (Nat.mul_le_mul_left _ hf)
+      _ = size := Nat.mul_div_cancel _ (Nat.pos_of_ne_zero hU)
+example : (2000000000 : Nat) ≤ 10 ^ 12 :=
+  (liquidationFee_value_le_size (W := 64) (U := 10 ^ 9) (factor := 2000000) (recvFactor := 370000000)
+    (size := 10 ^ 12) (pmin := 7) (l := ⟨2000000000, 285714286, 105714285⟩) (by decide) (by decide)).1
+
+/-! ### Non-vacuity (audit additions): every hypothesis-carrying theorem instantiated -/
+/-- a fee WITH a discount (10%) and a receiver share (37%): conservation on non-zero shares. -/
+example : 999370000000 + 396900000 + 233100000 = 10 ^ 12 :=
+  applyFees_conserves (f := ⟨396900000, 233100000⟩)
+    (by decide : applyFees 64 (10 ^ 9) ⟨500000, 700000, 370000000, 100000000⟩ .worsened (10 ^ 12)
+      = some (999370000000, ⟨396900000, 233100000⟩))
+example : feeOf 64 (10 ^ 9) ⟨500000, 700000, 370000000, 100000000⟩ .worsened (10 ^ 12) = some 630000000 := by decide
+/-- factor 200%: fee 2000 > amount 1000. -/
+example : applyFees 64 (10 ^ 9) ⟨0, 2 * 10 ^ 9, 0, 0⟩ .worsened 1000 = none :=
+  applyFees_none_of_fee_gt (fee := 2000) (by decide) (by decide)
+/-- receiver factor 200%: receiver share 1000 > fee 500. -/
+example : applyFees 64 (10 ^ 9) ⟨0, 5 * 10 ^ 8, 2 * 10 ^ 9, 0⟩ .worsened 1000 = none :=
+  applyFees_none_of_recv_gt (fee := 500) (r := 1000) (by decide) (by decide) (by decide)
+/-- discount 200%: discount 1000 > fee 500. -/
+example : feeOf 64 (10 ^ 9) ⟨0, 5 * 10 ^ 8, 0, 2 * 10 ^ 9⟩ .worsened 1000 = none :=
+  feeOf_none_of_discount_gt (f := 500) (d := 1000) (by decide) (by decide) (by decide)
+/-- discounts 10% and 50% of a 50% fee on 1000: 450 and 250. -/
+example : (250 : Nat) ≤ 450 :=
+  discount_antitone (W := 64) (U := 10 ^ 9) (p := ⟨0, 5 * 10 ^ 8, 0, 0⟩) (bc := .worsened) (a := 1000)
+    (d₁ := 10 ^ 8) (d₂ := 5 * 10 ^ 8) (by decide) (by decide) (by decide)
+example : (250 : Nat) ≤ 500 :=
+  discount_le_undiscounted (W := 64) (U := 10 ^ 9) (p := ⟨0, 5 * 10 ^ 8, 0, 0⟩) (bc := .worsened) (a := 1000)
+    (d := 5 * 10 ^ 8) (by decide) (by decide)
+example : ∃ r, applyFees 128 (10 ^ 20) ⟨5 * 10 ^ 16, 7 * 10 ^ 16, 37 * 10 ^ 18, 10 ^ 19⟩ .worsened (10 ^ 12) = some r :=
+  applyFees_total (by decide) (by decide) (by decide) (by decide) (by decide) (by decide)
+example : (500000000 : Nat) ≤ 10 ^ 12 :=
+  orderFees_value_le_size (W := 64) (U := 10 ^ 9) (p := ⟨500000, 700000, 370000000, 0⟩) (pmin := 10) (pmax := 11)
+    (bc := .improved) (o := ⟨31500000, 18500000, 500000000⟩) (by rfl) (by decide)
+/-- order fees with a discount, and the computation-error branch (factor 200% with discount 300%). -/
+example : (orderFees 64 (10 ^ 9) ⟨500000, 700000, 370000000, 100000000⟩ 10 11 (10 ^ 12) .improved)
+    = .ok ⟨28350000, 16650000, 450000000⟩ := by rfl
+example : (orderFees 64 (10 ^ 9) ⟨0, 2 * 10 ^ 9, 0, 3 * 10 ^ 9⟩ 10 11 1000 .worsened) = .error .computation := by rfl
+example : (105714285 : Nat) ≤ 285714286 :=
+  liquidationFee_split (W := 64) (U := 10 ^ 9) (factor := 2000000) (recvFactor := 370000000) (size := 10 ^ 12)
+    (pmin := 7) (l := ⟨2000000000, 285714286, 105714285⟩) (by decide) (by decide) (by decide)
+/-- zero factor short-circuits (even with a zero price); a non-zero factor with a zero price fails. -/
+example : liquidationFee 64 (10 ^ 9) 0 5 (10 ^ 12) 0 = some ⟨0, 0, 0⟩ ∧
+    liquidationFee 64 (10 ^ 9) 2000000 370000000 (10 ^ 12) 0 = none := by decide
+
 end Gmx.C02
